@@ -70,7 +70,7 @@ class LiborSDEFunction(SDEFunction):
         m, d = sigma.shape
         super().__init__(m=m, d=d)
         self._sigma = sigma
-        self.tenors = tenors
+        self.tenors = np.asarray(tenors, dtype=float)
 
     def sigma(self, t: float):
         """The sigma coefficient corresponding to the Libor with tenor T is zero for t >= T (the Libor rate fixes at T)
